@@ -577,6 +577,19 @@ def exec_step(step, sess, chains, audit):
     elif op == 'rename_profile_stop':
         sys.setprofile(None)
         obs['rename_returns'] = sess.get('_rename_state', {}).get('n', 0)
+    elif op == 'redefine':
+        # the user edits the task declarations and runs the definitions again in the same interpreter (notebook cell / importlib.reload):
+        # the classes keep their module and qualified names
+        import importlib
+        from .emit import emit
+        emit(step['spec'], sess['lab_root'])
+        importlib.invalidate_caches()
+        n_ = 0
+        for mname, mod in list(sys.modules.items()):
+            if mname.startswith(step['spec']['pkg'] + '.') and getattr(mod, '__file__', None):
+                importlib.reload(mod)
+                n_ += 1
+        obs['reloaded'] = n_
     elif op == 'warm_reprs':
         # earlier use of the parameter-object classes in this interpreter (parent classes before their subclasses)
         obs['reprs'] = [rt.LabObj(a=1).repr(), rt.LabObjPlain(x=1).repr(), rt.LabObjSub(a=1, limit=2).repr(), rt.LabObjVar(a=1, k=2).repr(),
